@@ -72,7 +72,8 @@ def gen_case(run_seed, tier):
         # evolutionary solver (the hybrid solver converts a dm target in place, which is C13's subject)
         "backend": sz.choice(["stab", "stab", "stab", "dm"]) if kind == "evo" else "stab",
         "det": sz.choice([0, 1, 1, 2]),
-        "seed": sz.randrange(1000),
+        # "all seeds": boundary values are drawn often (0 is falsy, 2**32-1 is numpy's largest legal seed)
+        "seed": sz.choice([0, 0, 1, 2**32 - 1] + [sz.randrange(1000) for _ in range(16)]),
         "hashseed": sz.choice(OTHER_HASHSEEDS[1:]),
         "pollution": [sz.randrange(10**6) for _ in range(4)],
     }
